@@ -1317,4 +1317,6 @@ def pushdown_cte_alias_columns(scope: Scope) -> None:
                 else:
                     projection = alias(projection, alias=_alias)
                 new_expressions.append(projection)
+            # A column list shorter than the projection list renames a prefix only
+            new_expressions.extend(cte.this.expressions[len(new_expressions) :])
             cte.this.set("expressions", new_expressions)
